@@ -56,13 +56,26 @@ class Path:
         self.pc.append(fact)
 
     def feasible(self):
+        # pruning: first with the quantifier-free part only (cheap; fewer hypotheses keep more paths:
+        # sound), then with everything under a small budget; `unknown` keeps the path
+        s = z3.Solver()
+        s.set('timeout', QUICK_MS)
+        nq = 0
+        for c in self.pc:
+            if not _quantified(c):
+                s.add(c)
+            else:
+                nq += 1
+        STATS['feas_checks'] += 1
+        if s.check() == z3.unsat:
+            return False
+        if nq == 0:
+            return True
         s = z3.Solver()
         s.set('timeout', QUICK_MS)
         for c in self.pc:
             s.add(c)
-        r = s.check()
-        STATS['feas_checks'] += 1
-        return r != z3.unsat
+        return s.check() != z3.unsat
 
     def assume(self, cond, tag=None):
         """add a branch condition; False if the path became infeasible"""
@@ -78,6 +91,28 @@ class Path:
 
 
 STATS = {'feas_checks': 0}
+_QCACHE = {}
+
+
+def _quantified(e):
+    k = e.get_id()
+    r = _QCACHE.get(k)
+    if r is None:
+        r = False
+        todo = [e]
+        seen = set()
+        while todo:
+            x = todo.pop()
+            i = x.get_id()
+            if i in seen:
+                continue
+            seen.add(i)
+            if z3.is_quantifier(x):
+                r = True
+                break
+            todo.extend(x.children())
+        _QCACHE[k] = r
+    return r
 
 
 def copy_env(env):
@@ -579,6 +614,8 @@ class Executor:
                         out.append(Res(p, fv.val))
                     return out
                 return [Res(p, fv)]
+            if (r.tagged[0] if r.tagged else r.pyclass) not in self.repo.classes:
+                return self.builtins.value_attr(self, base, attr, p, node)      # library value object
             if self.class_attr(r.tagged[0] if r.tagged else r.pyclass, attr) is None:
                 return [Res(p, exc=VExc('AttributeError'))]
             v = self.class_attr_of_value(base, attr, None) if not r.tagged or not self.repo.find_method(r.tagged[0], attr) \
@@ -655,6 +692,9 @@ class Executor:
                     hi = next(it) if e.slice.upper is not None else None
                     if e.slice.step is not None:
                         raise Unsupported(f'slice step at {self.where(e)}')
+                    st = self.builtins.slice_structural(p3, base, lo, hi)
+                    if st is not None:
+                        return [Res(p3, st)]
                     return self.lift(p3, ops.slice_(base, lo, hi))
                 return self.eval_list(parts, p2, ks)
             return self.bind(self.eval(e.slice, p2), lambda p3, i: self.subscript(base, i, p3, e))
@@ -939,6 +979,8 @@ class Executor:
             env['cls'] = VClass(ctor_of)
         ctx = self.ctx(p, env)
         ctx.old_env, ctx.old_heap, ctx.old_ghost = env, p.heap, p.ghost
+        for src in getattr(c, 'call_reveal', []):
+            self.spec.ev(ast.parse(f'reveal({src})', mode='eval').body, ctx)
         # preconditions are call-site obligations
         for cl in c.requires:
             goal = self.spec.bool(cl.ast, ctx)
@@ -1138,6 +1180,37 @@ class Executor:
                 t = c.locals[target.id]
                 v = from_z3(to_z3(v, t), t)
             p.env[target.id] = v
+            after = getattr(c, 'after', None) if c is not None else None
+            if after:
+                # ghost assertions after the n-th assignment to a local on this path ("name" = every
+                # assignment, "name@n" = the n-th): proved as obligations of their own, then available
+                cnt = p.ghost.get('__asg__', {})
+                cnt = dict(cnt)
+                cnt[target.id] = cnt.get(target.id, 0) + 1
+                p.ghost['__asg__'] = cnt
+                for key in (target.id, f'{target.id}@{cnt[target.id]}'):
+                    for n_l, src in enumerate(after.get(key, [])):
+                        if isinstance(src, dict):
+                            # {'when': cond, 'rewrite': expr}: on paths where cond holds, name == expr is
+                            # proved (obligation) and the local is re-bound to the structured term expr
+                            cctx = self.ctx(p)
+                            cond = self.spec.bool(ast.parse(src['when'], mode='eval').body, cctx)
+                            q = p.fork()
+                            if q.assume(z3.Not(cond)):
+                                continue        # cond not established on this path: nothing to do
+                            rhs = self.spec.ev(ast.parse(src['rewrite'], mode='eval').body, cctx)
+                            g = same(p.env[target.id], rhs)
+                            self.oblige(p, g, f'{self.func.qual.split(".", 1)[1]}/after:{key}[{n_l}]', c.props,
+                                        'assert', target.lineno)
+                            p.add(g)
+                            if isinstance(rhs, VBytes) and isinstance(p.env[target.id], VBytes):
+                                rhs = VBytes(rhs.z, p.env[target.id].mutable)
+                            p.env[target.id] = rhs
+                            continue
+                        g = self.spec.bool(ast.parse(src, mode='eval').body, self.ctx(p))
+                        self.oblige(p, g, f'{self.func.qual.split(".", 1)[1]}/after:{key}[{n_l}]', c.props,
+                                    'assert', target.lineno)
+                        p.add(g)
             return [Res(p, VNone)]
         if isinstance(target, (ast.Tuple, ast.List)):
             return self.store_tuple(target, v, p)
@@ -1452,6 +1525,13 @@ class Executor:
         hctx = self.ctx(h)
         for cl in ls.invariant:
             h.add(self.spec.bool(cl.ast, hctx))
+        for src in getattr(ls, 'reveal', []):
+            self.spec.ev(ast.parse(f'reveal({src})', mode='eval').body, hctx)
+        for n_l, src in enumerate(getattr(ls, 'lemmas', []) or []):
+            # intermediate facts at the loop head: proved as obligations of their own, then available
+            g = self.spec.bool(ast.parse(src, mode='eval').body, hctx)
+            self.oblige(h, g, f'{fshort}/loop{k}/lemma[{n_l}]', props, 'loop-lemma', s.lineno)
+            h.add(g)
         v0 = None
         if ls.variant is not None:
             v0 = ops.as_int(self.spec.ev(ls.variant.ast, hctx)).z
